@@ -50,12 +50,13 @@ PROPS["C08"] = {
     "runs": [run("TestC08", (12000, 8), (250000, 16))],
     "rule": "cases = rule sets of 4..12 items over all five phases (tracer SecActions, conditional skip:N / skipAfter:M with M present "
             "after, before or absent / allow, allow:phase, allow:request / chains of 1..3 links carrying a flow or disruptive action on the "
-            "starter / deny rules, markers) x a request that switches each condition on or off x engine On|DetectionOnly, compared with "
+            "starter / deny rules, markers) x a request that switches each condition on or off x engine On|DetectionOnly, in three cases of five after another "
+            "transaction on the same WAF (the same request, or one with every condition on, which leaves whatever skip / allow state the rules can produce), compared with "
             "the reference evaluator (fired ids in order, match data, interruption, per-phase return values); non-trivial = a flow "
             "action fired, at least one rule was skipped by it and at least one rule was evaluated afterwards; distinct = distinct case encodings",
     "essential": {"all": ["skipped-by-skip", "skipped-by-skipAfter", "stopped-by-allow:all", "stopped-by-allow:phase", "stopped-by-allow:request",
                           "marker-not-found-in-phase", "skip-larger-than-remaining-rules", "phase-5-rule-after-allow", "engine:DetectionOnly",
-                          "allow-request-raised-after-request-phases"]},
+                          "allow-request-raised-after-request-phases", "after-another-transaction"]},
     "assumptions": COMMON_ASSUME + [
         "reference evaluator written from the action documentation (spec ledger in DESIGN.md 3.3); markers inside a skip window and bare allow in "
         "phase 5 are undocumented and excluded by construction; allow:request raised in phases 3-5 is generated and modelled as covering "
